@@ -372,17 +372,120 @@ def run_repos(ctx, binary, variants):
         ctx.log("DISAGREEMENT class %s (%d specs), e.g. %s: %s" % (cl, len(bad[cl]), first["shape"], first["mismatch"].split("\n")[0][:150]))
     mid = flat[len(flat) // 2]
     ctx.sample({"repo": mid[0], "spec": mid[1]["text"], "expected": {k: mid[1][k] for k in ("ok", "kind", "a", "b")}})
-    return len(repos), len(flat)
+    tokens = {c["repo"]: c["tokens"] for c in cases if "tokens" in c}
+    nrand = run_random(ctx, binary, repos, dirs, tokens, path, 4000 if ctx.thorough else 600)
+    return len(repos), len(flat), nrand
+
+
+def random_specs(ctx, tokens, n):
+    """abstract syntax trees composed from the specification's token vocabulary, with their text"""
+    rng = ctx.rng
+    bases = sorted(tokens["bases"], key=lambda b: b["text"])
+    navs = sorted(tokens["navs"], key=lambda x: x["text"])
+    reflogs = sorted(tokens["reflogs"], key=lambda x: x["text"])
+    priors = sorted(tokens["priors"], key=lambda x: x["text"])
+    empty = {"b": "empty", "name": "", "hex": "", "stage": "", "path": "", "word": "", "neg": False, "text": ""}
+
+    def rev(maxnav):
+        r = rng.random()
+        if r < 0.06:
+            base, ns = empty, [rng.choice(reflogs + priors)]
+        else:
+            base, ns = rng.choice(bases), []
+            if base["b"] == "ref" and rng.random() < 0.15:
+                ns.append(rng.choice(reflogs))
+        # git quirk kept out of the domain: when a spec containing "@{" and ending in "}" fails to parse, git retries it as
+        # <ref>@{<approxidate of everything up to the last brace>}; after a reflog token only brace-less operators follow
+        pool = [x for x in navs if not x["text"].endswith("}")] if ns else navs
+        for _ in range(rng.randint(0, maxnav)):
+            nv = rng.choice(pool)
+            ns.append(nv)
+            if nv["n"] == "path":
+                break
+        return {"base": base, "navs": ns}, base["text"] + "".join(x["text"] for x in ns)
+
+    out = []
+    for _ in range(n):
+        f = rng.random()
+        nothing = {"base": empty, "navs": []}
+        if f < 0.7:
+            a, t = rev(4)
+            out.append(({"form": "rev", "a": a, "b": nothing, "k": 0}, t))
+        elif f < 0.8:
+            (a, ta), (b, tb) = rev(2), rev(2)
+            form, sep = rng.choice([("range", ".."), ("merge", "...")])
+            # (git quirk kept out of the domain: a range text that fails is retried as ONE revision, where a right side
+            #  starting with <anything>-g<hex> swallows the left side as describe prefix)
+            if (ta or tb or form == "merge") and b["base"]["b"] != "desc":
+                out.append(({"form": form, "a": a, "b": b, "k": 0}, ta + sep + tb))
+        else:
+            a, t = rev(2)
+            if not t or a["navs"] and a["navs"][-1]["n"] == "path":
+                continue
+            form, text, k = rng.choice([("not", "^" + t, 0), ("parents", t + "^@", 0), ("noparents", t + "^!", 0), ("minus", t + "^-", 1),
+                                        ("minus", t + "^-2", 2)])
+            out.append(({"form": form, "a": a, "b": nothing, "k": k}, text))
+    def quirky(t):
+        # ends in "}" and that brace does not close the last "@{": the approxidate retry described above
+        return "@{" in t and t.endswith("}") and "}" in t[t.rindex("@{"):-1]
+    return [x for x in out if x[1] and not quirky(x[1])]
+
+
+def run_random(ctx, binary, repos, dirs, tokens, path, n):
+    specs = []
+    for ri, r in enumerate(repos):
+        for ast, text in random_specs(ctx, tokens[r["name"]], n):
+            specs.append((ri, ast, text))
+    results = ctx.harness(binary, [{"repo": dirs[repos[ri]["name"]], "spec": text} for ri, ast, text in specs], timeout=3000)
+    # audit: single revisions without a reflog operator through cat-file, a sample of the others through rev-parse
+    gitev = []
+    for ri, r in enumerate(repos):
+        single = [(ast, text) for i, ast, text in specs if i == ri and ast["form"] == "rev" and "@{" not in text]
+        p = git(["cat-file", "--batch-check"], cwd=dirs[r["name"]], input=("\n".join(t for _, t in single) + "\n").encode())
+        lines = p.stdout.decode().splitlines()
+        if len(lines) != len(single):
+            raise ToolError("cat-file --batch-check ended early at %r: %s" % (single[len(lines)][1] if len(lines) < len(single) else "?", p.stderr.decode()[-200:]))
+        for (ast, text), line in zip(single, lines):
+            ok = not (line.endswith(" missing") or line.endswith(" ambiguous"))
+            gitev.append({"repo": ri + 1, "spec": ast, "ok": ok, "kind": "", "a": "", "b": "", "lines": [line.split()[0]] if ok else [], "text": text})
+        other = [(ast, text) for i, ast, text in specs if i == ri and not (ast["form"] == "rev" and "@{" not in text)]
+        for ast, text in other[::max(1, len(other) // (150 if ctx.thorough else 25))]:
+            lines = rev_parse(dirs[r["name"]], text)
+            if lines is not None and ast["form"] == "merge":
+                lines = [x for x in lines if not x.startswith("^")]
+            gitev.append({"repo": ri + 1, "spec": ast, "ok": lines is not None, "kind": "", "a": "", "b": "", "lines": lines or [], "text": text})
+    rej = ctx.tlc_trace("history", "RevSpec_Trace", gitev, consts={"Who": '"git"'}, env={"REPOS": path})
+    if rej:
+        audit_mismatch(ctx, "RevSpec_Trace (git) on random specs", {"text": gitev[rej[0]]["text"], "git": gitev[rej[0]]["lines"], "ok": gitev[rej[0]]["ok"]})
+    ctx.cov["git_audited"] = ctx.cov.get("git_audited", 0) + len(gitev)
+    events, keep = [], []
+    for (ri, ast, text), r in zip(specs, results):
+        if "got" not in r:
+            ctx.violation({"kind": "random", "classes": ["crash"], "case": {"repo": repos[ri]["name"], "ast": ast, "text": text}, "result": r})
+            continue
+        o = r["got"]
+        events.append({"repo": ri + 1, "spec": ast, "ok": o["ok"], "kind": o.get("kind", ""), "a": o.get("a", ""), "b": o.get("b", ""), "lines": []})
+        keep.append((ri, ast, text, o))
+        ctx.nontrivial(repos[ri]["name"] + " " + text)
+    rej = ctx.tlc_trace("history", "RevSpec_Trace", events, consts={"Who": '"gix"'}, env={"REPOS": path})
+    for i in rej[:200]:
+        ri, ast, text, o = keep[i]
+        ctx.violation({"kind": "random", "classes": ["random:" + ast["form"] + "|" + ast["a"]["base"]["b"] + "".join("|" + x["n"] for x in ast["a"]["navs"])],
+                       "case": {"repo": repos[ri]["name"], "ast": ast, "text": text}, "observed": o})
+    if rej:
+        ctx.log("random compositions: %d of %d rejected by RevSpec_Trace, e.g. %s" % (len(rej), len(events), [keep[i][2] for i in rej[:8]]))
+    return len(specs)
 
 
 def run(ctx):
     binary = ctx.build("vh-c48")
     variants = [("attached", "attached"), ("detached", "detached")]
-    nr, ns = run_repos(ctx, binary, variants)
+    nr, ns, nrand = run_repos(ctx, binary, variants)
     ctx.cov["exhaustive"] = True
     ctx.cov["rule"] = ("%d repositories x every specification RevSpec_Gen builds from their token alphabets (base x nav x nav, reflog and "
-                       "checkout forms, index and search forms, ranges and parent shorthands over an operand set): %d specs. Non-trivial = the "
-                       "spec uses an operator or fails; distinct by (repository, text)." % (nr, ns))
+                       "checkout forms, index and search forms, ranges and parent shorthands over an operand set): %d specs (A); %d seeded random "
+                       "compositions of up to 5 tokens judged by RevSpec_Trace (B). Non-trivial = the spec uses an operator or fails; distinct by "
+                       "(repository, text)." % (nr, ns, nrand))
     ctx.assumptions += ["git 2.39.5 is the reference for the transcription: cat-file --batch-check on every single-revision text, rev-parse on a sample of the others",
                         "commit message search is judged for whole words of the messages (substring semantics, no regex metacharacters)",
                         "merge bases of A...B are not part of the compared result (C47)"]
@@ -397,6 +500,13 @@ def replay(ctx, rec):
     path = os.path.join(ctx.work, "repos.ndjson")
     with open(path, "w") as f:
         f.write(json.dumps(repo) + "\n")
+    if rec.get("kind") == "random":
+        r = ctx.harness(binary, [{"repo": d, "spec": c["text"]}])[0]
+        o = r.get("got")
+        if o is None or ctx.tlc_trace("history", "RevSpec_Trace", [{"repo": 1, "spec": c["ast"], "ok": o["ok"], "kind": o.get("kind", ""), "a": o.get("a", ""),
+                                                                     "b": o.get("b", ""), "lines": []}], consts={"Who": '"gix"'}, env={"REPOS": path}):
+            ctx.violation(dict(rec, observed=o or r))
+        return
     cases = ctx.tlc_gen("history", "RevSpec_Gen", consts={"Wide": "TRUE"}, env={"REPOS": path}, workers=6, timeout=3000)
     for cs in cases:
         for s in cs["specs"]:
